@@ -77,6 +77,7 @@ func checkDefs() map[string]*CheckDef {
 					mc("lookups-from-init-n2", "VerifC01", map[string]int{"N": 2, "POINTS": 5, "LOOKUP": 1}, "start ok", "lookup from Init"),
 					mc("lookups-from-init-n3", "VerifC01", map[string]int{"N": 3, "POINTS": 1, "LOOKUP": 1}, "start ok", "lookup from Init"),
 					mc("wrap-n2-lookups-from-init", "VerifC03", map[string]int{"N": 2, "POINTS": 1, "LOOKUP": 1}, "start ok", "wrapped"),
+					mc("wrap-n2-typed-point", "VerifC03", map[string]int{"N": 2, "POINTS": 9}, "start ok", "start failed", "wrapped"),
 				}
 				if tier == "thorough" {
 					r = append(r, mc("mc-n3-single+slice", "VerifC01", map[string]int{"N": 3, "POINTS": 5}, "start ok"))
@@ -92,6 +93,7 @@ func checkDefs() map[string]*CheckDef {
 					mc("mc-n2-req-mix", "VerifC02", map[string]int{"N": 2, "POINTS": 5}, "start ok", "start failed"),
 					mc("mc-n3-single-req-mix", "VerifC02", map[string]int{"N": 3, "POINTS": 1}, "start ok", "start failed"),
 					rh("self-candidate", "VerifC06", map[string]int{"K": 1}, "start ok"),
+					{Name: "ring-of-70", Pkg: fac, Entry: "VerifC02Ring", Params: map[string]int{"RING": 70}, MustCover: []string{"long cycle resolved"}, Opts: ExecOpts{Termination: true, MaxSteps: 5000000, MaxDepth: 4000}},
 				}
 				if tier == "thorough" {
 					r = append(r, mc("mc-n2-all-points", "VerifC02", map[string]int{"N": 2, "POINTS": 7}, "start ok"))
@@ -100,7 +102,7 @@ func checkDefs() map[string]*CheckDef {
 				return r
 			},
 			LevelText: "Bounded symbolic model checking of the real factory/registry/Inject code on every directed graph over n components with required/optional bits per point: every path ends within the step budget (unwinding assertion = termination), start-up succeeds unless a required point can only be satisfied by its own holder, no field is ever wired to its holder, every required point holds its target.",
-			LevelNote: "Bounds: n<=2 (single+slice), n<=3 (single point); step budget 400k SSA instructions per path (max seen ~15k). Hundreds of nodes are outside the claim.",
+			LevelNote: "Bounds: n<=2 (single+slice), n<=3 (single point); step budget 400k SSA instructions per path (max seen ~15k). One fixed long cycle (a ring of 70 components, one path) is run as well; arbitrary graphs with hundreds of nodes are outside the claim.",
 			Technique: techDefault, DesignRef: "DESIGN.md §3 C02"},
 		&CheckDef{ID: "C03", Title: "No stale version under substitution",
 			Runs: func(tier string) []RunSpec {
@@ -108,6 +110,7 @@ func checkDefs() map[string]*CheckDef {
 					mc("wrap-n2", "VerifC03", map[string]int{"N": 2, "POINTS": 5, "REPLACE": 1}, "start ok", "start failed", "wrapped", "replaced before instantiation"),
 					mc("wrap-n3-single", "VerifC03", map[string]int{"N": 3, "POINTS": 1}, "start ok", "wrapped"),
 					mc("wrap-n2-lookups-from-init", "VerifC03", map[string]int{"N": 2, "POINTS": 1, "LOOKUP": 1}, "start ok", "wrapped"),
+					mc("wrap-n2-typed-point", "VerifC03", map[string]int{"N": 2, "POINTS": 9}, "start ok", "start failed", "wrapped"),
 				}
 				if tier == "thorough" {
 					r = append(r, mc("wrap-n2-all-points", "VerifC03", map[string]int{"N": 2, "POINTS": 7}, "start ok", "wrapped"))
@@ -122,6 +125,7 @@ func checkDefs() map[string]*CheckDef {
 				r := []RunSpec{
 					{Name: "step-lemmas", Pkg: ioc + "/container/support", Entry: "VerifC04Step", MustCover: []string{"creation failed", "creation succeeded", "op lookup", "op publish"}},
 					mc("histories-n2", "VerifC04B", map[string]int{"N": 2, "POINTS": 1, "FAULTS": 1, "LOOKUPS": 2, "LAZY": 1}, "start failed", "lookup after failure reports an error"),
+					mc("early-reference-is-what-gets-published", "VerifC03", map[string]int{"N": 2, "POINTS": 5}, "start ok", "wrapped"),
 					mc("nested-creations-from-init", "VerifC05", map[string]int{"N": 2, "POINTS": 1, "LAZY": 1, "LOOKUP": 1, "BARE": 1}, "start ok"),
 				}
 				if tier == "thorough" {
@@ -206,18 +210,21 @@ func checkDefs() map[string]*CheckDef {
 			Runs: func(tier string) []RunSpec {
 				return []RunSpec{
 					rh("types", "VerifC06", map[string]int{"K": tierPick(tier, 2, 3), "PORDER": 0}, "start ok", "start failed", "several candidates"),
+					rh("func-returns", "VerifC06Returns", map[string]int{"K": tierPick(tier, 2, 3)}, "both func points populated"),
+					rh("declining-user-processor", "VerifC06", map[string]int{"K": 1, "PORDER": 0, "PROC0": 1}, "start ok", "start failed"),
 					rh("same-named-types", "VerifC06SameName", map[string]int{"K": tierPick(tier, 2, 3)}, "two same-named interface types"),
 				}
 			},
 			LevelText: "Bounded symbolic model checking of the real dependencyAware/dependencyFunctionAware/dependencyFurtherMatching processors (sequenced by the real SortOrderedComponents), container.Type/InterfaceType/FuncName, defaultDefinitionRegistry.GetMetas (enumeration order = symbolic permutation), the real tag scanner and populateComponent/Inject: for every population of up to K providers over a universe of four provider types and eight consumer field kinds (*T, I, []*T, []I, any, func-tag slice, and holders that are themselves candidates), the injected set equals an order-free specification written from static facts about the types.",
-			LevelNote: "Reduced claim: types are program text, so the type universe is fixed (4 provider types incl. a 'merely similar' pointer type, 8 field kinds); K<=2 (thorough 3); func tag only without returns=. The reflect model is validated by native replay of sampled paths.",
+			LevelNote: "Reduced claim: types are program text, so the type universe is fixed (4 provider types incl. a 'merely similar' pointer type, 8 field kinds); K<=2 (thorough 3); func tag with returns= for string results only. The reflect model is validated by native replay of sampled paths.",
 			Technique: techDefault, DesignRef: "DESIGN.md §3 C06"},
 		&CheckDef{ID: "C07", Title: "Injection by name",
 			Runs: func(tier string) []RunSpec {
 				return []RunSpec{
-					{Name: "register", Pkg: fac, Entry: "VerifC07Register", Params: map[string]int{"K": 3, "L": tierPick(tier, 1, 2)}, MustCover: []string{"duplicate rejected"}, Opts: ExecOpts{PermuteRange: true}},
+					{Name: "register", Pkg: fac, Entry: "VerifC07Register", Params: map[string]int{"K": 3, "L": tierPick(tier, 1, 2)}, MustCover: []string{"duplicate rejected", "same-named types of different packages", "stateless components sharing a name"}, Opts: ExecOpts{PermuteRange: true}},
 					rh("by-name", "VerifC07", map[string]int{"K": tierPick(tier, 2, 3)}, "named component found", "named component has an incompatible type", "optional point, no such component", "name given through a placeholder"),
 					rh("peers-of-the-holders-type", "VerifC07Peers", nil, "peer of the holder's own type"),
+					rh("several-named-points", "VerifC07Fields", nil, "absent optional name next to other points"),
 					rh("symbolic-names", "VerifC07Symbolic", nil, "first name requested", "second name requested", "no such name"),
 				}
 			},
@@ -229,6 +236,7 @@ func checkDefs() map[string]*CheckDef {
 				return []RunSpec{
 					rh("fields", "VerifC08", map[string]int{"K": 2, "SHAPES": 4, "NQ": tierPick(tier, 1, 2), "PORDER": 0}, "start ok", "start failed", "unique primary", "unique unnamed"),
 					rh("func-tag-fields", "VerifC08", map[string]int{"K": 2, "ONLY": 4, "NQ": 1, "PORDER": 0}, "func-tag points", "unique primary"),
+					rh("pointer-typed-point", "VerifC08", map[string]int{"K": 3, "ONLY": 6, "NQ": 1, "PORDER": 0}, "pointer-typed point", "unique unnamed"),
 					rh("three-candidates", "VerifC08", map[string]int{"K": 3, "ONLY": 5, "NQ": 1, "PORDER": 0}, "unique primary", "unique unnamed"),
 				}
 			},
@@ -246,6 +254,8 @@ func checkDefs() map[string]*CheckDef {
 					{Name: "run-phases-and-runners", Pkg: app, Entry: "VerifC13", Params: map[string]int{"N": 2, "FAULTS": 1}, MustCover: []string{"start-up fault", "runner failed"}},
 					{Name: "loaders", Pkg: ioc + "/configure", Entry: "VerifC15Load", Params: map[string]int{"N": 3}, MustCover: []string{"loader failed"}},
 					{Name: "integration", Pkg: app, Entry: "VerifAppIntegration", Params: map[string]int{"N": 2, "R": 1}, MustCover: []string{"component init fails"}, Opts: ExecOpts{Sched: "seq"}},
+					{Name: "failing-definition-scanners", Pkg: fac, Entry: "VerifC20Scan", Params: map[string]int{"N": 3}, MustCover: []string{"several scanners fail at the same time"}, Opts: ExecOpts{Sched: "join", Races: true}},
+					rh("declining-user-processor", "VerifC06", map[string]int{"K": 1, "PORDER": 0, "PROC0": 1}, "start ok", "start failed"),
 					{Name: "configuration-values", Pkg: prc, Entry: "VerifC09Values", MustCover: []string{"required value missing", "optional value missing", "value present"}},
 				}
 			},
@@ -258,6 +268,8 @@ func checkDefs() map[string]*CheckDef {
 					rhc("by-type", "VerifC06", map[string]int{"K": 2, "PORDER": 1}, "start ok", "several candidates"),
 					rhc("by-name", "VerifC07", map[string]int{"K": 2}, "named component found"),
 					rh("qualified", "VerifC08", map[string]int{"K": 2, "SHAPES": tierPick(tier, 2, 4), "NQ": 1, "PORDER": 1}, "unique primary", "unique unnamed"),
+					{Name: "registration", Pkg: fac, Entry: "VerifC07Register", Params: map[string]int{"K": 3, "L": 1}, MustCover: []string{"duplicate rejected"}, Opts: ExecOpts{PermuteRange: true}},
+					rh("pointer-typed-point", "VerifC08", map[string]int{"K": 2, "ONLY": 6, "NQ": 1, "PORDER": 0}, "pointer-typed point", "unique unnamed"),
 					mc("creation-order", "VerifC10MC", map[string]int{"N": 2, "POINTS": tierPick(tier, 5, 7)}, "start ok", "start failed"),
 					mc("creation-order-n3", "VerifC10MC", map[string]int{"N": 3, "POINTS": 1}, "start ok", "start failed"),
 				}
